@@ -71,34 +71,9 @@ def summary (c : ParsedChannel) : String :=
   let rows := (c.traceOpenings.map fun o => o.rows.length).sum
   s!"ok roots={c.traceRoots.length} fri={c.friRoots.length} rows={rows} crow={c.constraintOpening.rows.length} rem={c.remainder.length} layers={c.friLayers.length} lvals={dots (c.friLayers.map fun l => (l.rows.map List.length).sum)} ood={c.oodCurrent.length} evals={c.oodEvals.length}"
 
-/-- `q.b.g.x.f.r` -/
-def optsOf (s : String) : Option Serde.ProofOptions :=
-  match (s.splitOn ".").mapM parseNat with
-  | some [q, b, g, x, f, r] => some ⟨q, b, g, x, f, r⟩
-  | _ => none
-
-def acceptableOf (s : String) : Option RefVerifier.Acceptable :=
-  if s.startsWith "os:" then ((((s.drop 3).toString).splitOn ",").mapM optsOf).map .optionSet
-  else if s.startsWith "mc:" then (parseNat ((s.drop 3).toString)).map .minConjectured
-  else none
-
-def pubsOf (s : String) : Option (List Nat) :=
-  if s = "-" then some [] else (s.splitOn ",").mapM parseNat
-
-def handleRefv (f h desc acc pubs bytes : String) : String :=
-  match RefVerifier.instOf f h with
-  | none => "-"
-  | some J =>
-    match RefVerifier.parseDesc desc with
-    | none => "-"
-    | some d =>
-      match acceptableOf acc, pubsOf pubs, unhex bytes with
-      | some a, some ps, some bs => (RefVerifier.refVerify J d ps a bs).text
-      | _, _, _ => "bad-op"
-
 def handle (toks : List String) : String :=
   match toks with
-  | ["refv", f, h, _opts, _seed, desc, acc, pubs, _tag, bytes] => handleRefv f h desc acc pubs bytes
+  | ["refv", f, h, _opts, _seed, desc, acc, pubs, _tag, bytes] => RefVerifier.refvLine f h desc acc pubs (unhex bytes)
   | "refv" :: _ => "bad-op"
   | ["chan", f, h, desc, bytes] =>
     match fieldOf f, digestOf h, dimsOf desc, unhex bytes with
